@@ -164,7 +164,7 @@ Qed.
 Definition reason_beq (a b : reason) : bool :=
   match a, b with
   | RNoUser, RNoUser | RNoName, RNoName | RNoUid, RNoUid | RNonRoot, RNonRoot
-  | RSetgroups, RSetgroups | RSetgid, RSetgid => true
+  | RSetgroups, RSetgroups | RSetgid, RSetgid | RSetuid, RSetuid => true
   | _, _ => false
   end.
 
